@@ -15,9 +15,12 @@
    function`, naming that path and that kind of error.
    The recorded input of finding F23 (a symlinked .lp argument was dropped silently and the roles
    shifted to the next files) is replayed first, in-process and through the CLI.
-2. Swap cases.  problems(strong, B, A, forward) = problems(strong, A, B, backward) up to the
-   left_/right_ formula-name prefixes and the problem names; for external program-vs-program
-   additionally up to the `_p` renaming of private predicates of the program side.
+2. Swap cases.  problems(strong, B, A, forward) vs problems(strong, A, B, backward) in the shape of
+   C20_swap_syntactic: problem names forward_k / backward_k; per problem the same lines IN THE SAME
+   ORDER except for the block of transition axioms and the block of predicate declarations, which
+   are equal as multisets; formula names up to the running number and left_/right_.  External
+   program-vs-program (no theorem of this shape): equal as multisets of lines up to the `_p` renaming
+   of private predicates of the program side.
 """
 import os
 import re
@@ -422,17 +425,31 @@ NUMBERING = re.compile(r"^tff\((formula|predicate)_\d+_?")
 
 
 def normal_lines(text, swap):
-    """the problem as a multiset of annotated formulas / declarations: the running numbers in the
-    names are dropped, left_/right_ optionally exchanged, lines sorted"""
-    out = []
+    """the problem in the shape of C20_swap_syntactic: (everything except type declarations and
+    transition axioms IN ORDER - the preamble, then the annotated formulas of the two programs with
+    their roles -, the multiset of transition axioms, the multiset of predicate declarations); the
+    running numbers in the names are dropped, left_/right_ optionally exchanged"""
+    ordered, transition, decls = [], [], []
     for ln in text.split("\n"):
         ln = NUMBERING.sub(lambda m: "tff(" + m.group(1) + "_", ln)
-        ln = re.sub(r"^tff\(formula_transition_axiom_\d+,", "tff(formula_transition_axiom,", ln)
+        if ln.startswith("tff(predicate_"):
+            decls.append(ln)
+            continue
+        if ln.startswith("tff(formula_transition_axiom_"):
+            transition.append(re.sub(r"^tff\(formula_transition_axiom_\d+,", "tff(formula_transition_axiom,", ln))
+            continue
         if swap and ln.startswith("tff(formula_"):
             head, sep, rest = ln.partition(",")
             ln = swap_lr(head) + sep + rest
-        out.append(ln)
-    return sorted(out)
+        ordered.append(ln)
+    return ordered, sorted(transition), sorted(decls)
+
+
+def first_difference(la, lb):
+    for part, (x, y) in zip(("formulas in order", "transition axioms", "predicate declarations"), zip(la, lb)):
+        if x != y:
+            return part + ": " + repr(next((u, v) for u, v in zip(x + [""], y + [""]) if u != v))[:400]
+    return ""
 
 
 def swap_private(x, y):
@@ -464,7 +481,7 @@ def swap_case(exe, scratch, idx, mode, a, b, extra):
         if mode == "strong":
             la, lb = normal_lines(ta, True), normal_lines(tb, False)
             ok = la == lb
-            why = "" if ok else "first differing formula: " + repr(next((u, v) for u, v in zip(la + [""], lb + [""]) if u != v))[:400]
+            why = "" if ok else "first difference in " + first_difference(la, lb)
             if ok and ta != swap_lr(tb) and res.get("order_differs") is None:
                 res["order_differs"] = True
         else:
